@@ -501,6 +501,12 @@ def _main(chk, prop, tier, args, rundir, t0):
         print('oracle: %s' % (what or 'property holds on this input'))
         return 1 if what else 0
 
+    for old in REPLAYS.glob('%s-*.json' % prop):
+        try:
+            old.unlink()
+        except OSError:
+            pass
+
     # 1. build + gate + audit ---------------------------------------------------
     oracle_only = os.environ.get('AHP_ORACLE_ONLY') == '1'   # development aid: implementation side only
     if oracle_only:
